@@ -525,7 +525,7 @@ func (g *jsGen) expr(d int) string {
 	case 24:
 		return g.objectLit() + r.Pick([]string{".a", "[\"a\"]", ".x", "?.k"})
 	case 25:
-		return g.arrayLit() + r.Pick([]string{".length", "[0]", ".map(x=>x)", ".join()", ".indexOf(1)"})
+		return g.arrayLit() + r.Pick([]string{".length", "[0]", ".map(x=>x)", ".join()", ".indexOf(1)", "[\"1\"]", "[\"0\"]", "[\"1.0\"]", "[\"01\"]", "[\".0\"]", "[\"1.\"]", "[\"0.0\"]", "[\"1e0\"]"})
 	case 26:
 		return g.arrowFunc(d)
 	case 27:
